@@ -27,6 +27,7 @@ def run(ctx, rep):
     PR.number(rep, lib)
     PR.escapes(rep, lib)
     PR.ws_struct(rep, lib)
+    PR.input_decides(rep, lib)
     NR.parse_direct(rep, lib)
     NR.int_ctor(rep, lib)
     NR.float_window(rep, lib)
